@@ -403,6 +403,12 @@ pub fn run(ctx: &mut Ctx) {
         check_doc_accessors(ctx, t, &mut rng);
     }
     ctx.exhaustive.insert("small_scope(<=4 nodes) x all listed accessor arguments".into(), !ctx.miri);
+    if ctx.shard == 0 && ctx.tier == crate::monitor::Tier::Thorough && !ctx.miri {
+        ctx.next_case();
+        ctx.count("huge_payload_docs");
+        let mut rng = ctx.rng.fork();
+        check_doc_accessors(ctx, &gen::huge_payload_doc(), &mut rng);
+    }
     let n = if ctx.miri { ctx.miri_cases(3) } else { ctx.budget(400_000, 8_000_000) };
     for i in 0..n {
         if !ctx.next_case() {
